@@ -444,3 +444,6 @@ def run_case(case):
     out.nontrivial = (left_pending and left_stats) or pr["kind"] in ("fault", "pause") and left_pending
     out.info = {"executed": len(want["trace"]), "prior": pr["kind"]}
     return out
+
+
+RULE = RULE + " " + 'Later additions: stream 0 may be the default stream of a StreamInformation() built in construct_model; initial methods registered after the first initialize(); fixed scenarios on a long program (re-initialise from an END_REPLICATION listener, initialize while a slow handler finishes after stop() from another thread or from the handler itself).'
